@@ -457,7 +457,7 @@ class MemoryFS(FS):
                 raise errors.FileExpected(src_path)
 
             dst_dir_entry = self._get_dir_entry(dst_dir)
-            if dst_dir_entry is None:
+            if dst_dir_entry is None or not dst_dir_entry.is_dir:
                 raise errors.ResourceNotFound(dst_path)
             elif not overwrite and dst_name in dst_dir_entry:
                 raise errors.DestinationExists(dst_path)
